@@ -79,6 +79,23 @@ fn dechunk(s: &str) -> String {
     out
 }
 
+/// like `rpc`, for the harness's own bookkeeping queries: a transport failure (refused connection, timeout on a loaded
+/// machine) is retried and finally is a tool error - it must never be mistaken for an answer of the server
+pub fn rpc_sure(port: u16, method: &str, params: Value, auth: Option<&str>) -> Value {
+    let mut last = String::new();
+    for attempt in 0..6 {
+        match rpc(port, method, params.clone(), auth) {
+            Ok(v) => return v,
+            Err(e) => {
+                last = e;
+                std::thread::sleep(Duration::from_millis(100 << attempt));
+            }
+        }
+    }
+    eprintln!("TOOL ERROR: the harness cannot talk to its own server ({} on port {}): {}", method, port, last);
+    std::process::exit(2);
+}
+
 pub fn rpc(port: u16, method: &str, params: Value, auth: Option<&str>) -> Result<Value, String> {
     let body = serde_json::json!({"jsonrpc": "2.0", "id": 1, "method": method, "params": params}).to_string();
     let (_st, text) = post(port, &body, auth)?;
